@@ -1,15 +1,18 @@
 import PycsepVerif.Proto
 import PycsepVerif.Model.Filter
 import PycsepVerif.Model.FilterMct
+import PycsepVerif.Model.FilterNan
 /-!
 Driver ops of C04 (all prefixed `c04_`):
 
 * `c04_hist EVENTS FILTERS REGION CALL*` → `FLAGS|ids of object 0|ids of object 1|…`
 * `c04_load EVENTS FILTERS REGION` → ids of the loaded catalog or `exc`
 * `c04_epoch Y,M,D,h,m,s,us` → epoch milliseconds
-* `c04_mct EVENTS MCT` → ids kept by `apply_mct`, or `exc` (empty catalog)
+* `c04_mct EVENTS MCT` → ids kept by `apply_mct`
+* `c04_spq EVENTS b0 b1 b2 b3` → ids kept by `filter_spatial` with a quadtree region of tiles [b0,b2) x [b1,b3)
+* `c04_nan EVENTSF STMTSF` → ids kept by `filter`; float fields / thresholds may be `nan`, `inf`, `-inf`
 * `c04_next EVENTS FILTERS0 REGION0 apply(0|1) FILTERS MCT|none spatial(0|1) REGION` → ids of the catalog yielded by
-  `CatalogForecast.__next__`, or `exc:empty` / `exc:noregion`
+  `CatalogForecast.__next__`, or `exc:noregion`
 
 MCT     `eventEpoch;tCrit;ids of the rows with mw < mct (comma separated, `-` = none)`
 
@@ -103,12 +106,40 @@ def parseMct? (s : String) : Option Mct :=
 def parseMctOpt? (s : String) : Option (Option Mct) :=
   if s = "none" then some none else (parseMct? s).map some
 
+def zip4 : List Rat → List Rat → List Rat → List Rat → List (Rat × Rat × Rat × Rat)
+  | a :: as, b :: bs, c :: cs, d :: ds => (a, b, c, d) :: zip4 as bs cs ds
+  | _, _, _, _ => []
+
+def parseFVal? (s : String) : Option FVal :=
+  if s = "nan" then some .nan else if s = "inf" then some .posInf else if s = "-inf" then some .negInf
+  else (parseRat? s).map .fin
+
+def parseEventF? (s : String) : Option EventF :=
+  match s.splitOn "," with
+  | [i, t, la, lo, d, m] => do
+      some ⟨← i.toNat?, ← parseInt? t, ← parseFVal? la, ← parseFVal? lo, ← parseFVal? d, ← parseFVal? m⟩
+  | _ => none
+
+def parseStmtF? (s : String) : Option StmtF :=
+  match s.splitOn "," with
+  | [a, o, v] => do some ⟨← parseAttr? a, ← parseOp? o, ← parseFVal? v⟩
+  | _ => none
+
 def showEvIds (es : List Event) : String := showList (fun (e : Event) => toString e.id) es
 
 def handle : List String → Option String
   | ["c04_mct", ev, m] => some (
       match parseSemi? parseEvent? ev, parseMct? m with
-      | some ev, some m => (match applyMct m ev with | .ok es => showEvIds es | .error _ => "exc")
+      | some ev, some m => showEvIds (applyMct m ev)
+      | _, _ => "bad-op")
+  | ["c04_spq", ev, b0, b1, b2, b3] => some (
+      match parseSemi? parseEvent? ev, parseList? parseRat? b0, parseList? parseRat? b1, parseList? parseRat? b2,
+            parseList? parseRat? b3 with
+      | some ev, some b0, some b1, some b2, some b3 => showEvIds (filterSpatialQuad ⟨zip4 b0 b1 b2 b3⟩ ev)
+      | _, _, _, _, _ => "bad-op")
+  | ["c04_nan", ev, st] => some (
+      match parseSemi? parseEventF? ev, parseSemi? parseStmtF? st with
+      | some ev, some st => showList (fun (e : EventF) => toString e.id) (filterListF st ev)
       | _, _ => "bad-op")
   | ["c04_next", ev, fs0, rg0, ap, fs, m, sp, rg] => some (
       match parseSemi? parseEvent? ev, parseSemi? parseStmt? fs0, parseRegion? rg0, parseBool? ap,
@@ -116,7 +147,6 @@ def handle : List String → Option String
       | some ev, some fs0, some rg0, some ap, some fs, some m, some sp, some rg =>
         (match nextFilter ⟨ap, fs, m, sp, rg⟩ ⟨ev, fs0, rg0⟩ with
          | .ok c => showIds c
-         | .error .emptyCatalog => "exc:empty"
          | .error .noRegion => "exc:noregion")
       | _, _, _, _, _, _, _, _ => "bad-op")
   | "c04_hist" :: ev :: fs :: rg :: calls => some (hist ev fs rg calls)
